@@ -20,36 +20,58 @@ NoOptions(i) == {}
 PickAll(X) == X
 hvars == <<t, S, hist, done, cur>>
 
-Cands == { [p |-> p, a |-> a, b |-> b, c |-> c, shape |-> sh] : p \in Ps, a \in As, b \in Bs, c \in As, sh \in Shapes }
+\* shapes with three definitions of the count field have a third first member e (0 otherwise)
+Three == {"triple", "adjacent_first", "adjacent_last"}
+Cands == { [p |-> p, a |-> a, b |-> b, c |-> c, e |-> e, shape |-> sh] : p \in Ps, a \in As, b \in Bs, c \in As, e \in As \cup {0}, sh \in Shapes }
 
 Pre(x) == IF x.p = 0 THEN <<>> ELSE <<UOf(x.p)>>
 Solve(x) == UXor(UXor(Lin(FoldHash(U(0, 0), Pre(x) \o <<UOf(x.a)>>)), Lin(FoldHash(U(0, 0), Pre(x) \o <<UOf(x.c)>>))), UOf(x.b))
 D(x) == Solve(x).l
 Reserved == { SkelFields[i].num : i \in DOMAIN SkelFields } \cup {CountA, CountB, Suffix}
-Usable(x) == /\ x.a # x.c /\ x.a < x.b
+\* third definition p + {e, f}: "triple" collides with the other two; "adjacent_*" hashes to their hash + 1, the key the
+\* probing compiler hands to the second of the colliding pair
+H1(x) == RotHash(FoldHash(U(0, 0), Pre(x) \o <<UOf(x.a)>>), UOf(x.b))
+SolveF(x) == IF x.shape = "triple" THEN UXor(UXor(Lin(FoldHash(U(0, 0), Pre(x) \o <<UOf(x.a)>>)), Lin(FoldHash(U(0, 0), Pre(x) \o <<UOf(x.e)>>))), UOf(x.b))
+             ELSE UXor(UXor(Lin(FoldHash(U(0, 0), Pre(x) \o <<UOf(x.e)>>)), RotK), UInc(H1(x)))
+F3(x) == SolveF(x).l
+Usable3(x) == IF x.shape \notin Three THEN x.e = 0
+              ELSE /\ x.e \notin {0, x.a, x.c, x.p} /\ x.p < x.e
+                   /\ SolveF(x).h = 0 /\ F3(x) > x.e /\ F3(x) \notin {x.a, x.b, x.c, x.p, x.e} \cup Reserved /\ F3(x) < Suffix
+Usable2(x) == /\ x.a # x.c /\ x.a < x.b
              /\ Solve(x).h = 0 /\ D(x) > x.c /\ D(x) \notin {x.a, x.b, x.c, x.p} \cup Reserved /\ D(x) < Suffix
              /\ x.b \notin Reserved /\ x.p < x.a /\ x.p < x.c /\ x.p \notin Reserved
+
+Usable(x) == /\ Usable2(x) /\ Usable3(x) /\ (x.shape \in Three => F3(x) # D(x))
 
 Mem(n) == [n |-> n, m |-> 1, g |-> FALSE, sub |-> <<>>]
 PreM(x) == IF x.p = 0 THEN <<>> ELSE <<Mem(x.p)>>
 Def1(x) == PreM(x) \o <<Mem(x.a), Mem(x.b)>>
 Def2(x) == PreM(x) \o <<Mem(x.c), Mem(D(x))>>
+Def3(x) == PreM(x) \o <<Mem(x.e), Mem(F3(x))>>
 \* the computed d makes the two definitions collide under the transcribed hash, and they differ in members
-SolvedCollides == Usable(t) => (GroupHash(Def1(t)) = GroupHash(Def2(t)) /\ Nums(Def1(t)) # Nums(Def2(t)))
+SolvedCollides == Usable(t) => /\ GroupHash(Def1(t)) = GroupHash(Def2(t)) /\ Nums(Def1(t)) # Nums(Def2(t))
+                               /\ t.shape = "triple" => (GroupHash(Def3(t)) = GroupHash(Def1(t)) /\ Nums(Def3(t)) \notin {Nums(Def1(t)), Nums(Def2(t))})
+                               /\ t.shape \in Three \ {"triple"} => GroupHash(Def3(t)) = UInc(GroupHash(Def1(t)))
 
 \* ---- schemas around a collision ----------------------------------------------------------------------
-Fs(x) == (IF x.p = 0 THEN <<>> ELSE <<x.p>>) \o <<x.a, x.b, x.c, D(x)>>
+Fs(x) == (IF x.p = 0 THEN <<>> ELSE <<x.p>>) \o <<x.a, x.b, x.c, D(x)>> \o (IF x.shape \in Three THEN <<x.e, F3(x)>> ELSE <<>>)
 PreE(x) == IF x.p = 0 THEN <<>> ELSE <<FieldE(x.p, TRUE)>>
 E1(x) == PreE(x) \o <<FieldE(x.a, TRUE), FieldE(x.b, FALSE)>>
 E2(x) == PreE(x) \o <<FieldE(x.c, TRUE), FieldE(D(x), FALSE)>>
+E3(x) == PreE(x) \o <<FieldE(x.e, TRUE), FieldE(F3(x), FALSE)>>
 \* "pair": the two definitions under count field CountA in two messages
 \* "suffix": both definitions get a common larger member appended (3- and 4-field variants)
 \* "nested": two parents with identical members whose nested groups (count field CountB) are the colliding pair:
 \*           the definitions differ only in their nested groups
 \* "swapped": as pair, the colliding definition first
+\* "triple": three messages, three definitions with one hash
+\* "adjacent_first" / "adjacent_last": the colliding pair and a definition that hashes to their hash + 1, registered
+\*           before / after the pair
 Items(x, which) ==
     LET e == IF which = 1 THEN E1(x) ELSE E2(x) IN
     CASE x.shape = "pair" -> <<GroupE(CountA, TRUE, e)>>
+      [] x.shape \in {"triple", "adjacent_last"} -> <<GroupE(CountA, TRUE, CASE which = 1 -> E1(x) [] which = 2 -> E2(x) [] OTHER -> E3(x))>>
+      [] x.shape = "adjacent_first" -> <<GroupE(CountA, TRUE, CASE which = 1 -> E3(x) [] which = 2 -> E1(x) [] OTHER -> E2(x))>>
       [] x.shape = "swapped" -> <<GroupE(CountA, TRUE, IF which = 1 THEN E2(x) ELSE E1(x))>>
       [] x.shape = "suffix" -> <<GroupE(CountA, FALSE, Append(e, FieldE(Suffix, FALSE)))>>
       [] x.shape = "nested" -> <<GroupE(CountA, TRUE, <<FieldE(Suffix, TRUE), GroupE(CountB, FALSE, e)>>)>>
@@ -58,9 +80,11 @@ CDecl(n) == [num |-> n, name |-> "NoG" \o ToString(n), type |-> "NUMINGROUP", va
 UserFields(x) == [i \in DOMAIN Fs(x) |-> FDecl(Fs(x)[i])] \o <<FDecl(Suffix), CDecl(CountA), CDecl(CountB)>>
 SchemaFor(x) ==
     LET i35 == CHOOSE i \in DOMAIN SkelFields : SkelFields[i].num = 35 IN
-    [Skeleton EXCEPT !.fields = [@ EXCEPT ![i35].vals = @ \o << <<"UA", "MSG_UA">>, <<"UB", "MSG_UB">> >>] \o UserFields(x),
+    [Skeleton EXCEPT !.fields = [@ EXCEPT ![i35].vals = @ \o << <<"UA", "MSG_UA">>, <<"UB", "MSG_UB">> >>
+                                                                \o (IF x.shape \in Three THEN << <<"UC", "MSG_UC">> >> ELSE <<>>)] \o UserFields(x),
                      !.msgs = @ \o << [mt |-> "UA", name |-> "MsgUA", admin |-> FALSE, items |-> Items(x, 1)],
-                                      [mt |-> "UB", name |-> "MsgUB", admin |-> FALSE, items |-> Items(x, 2)] >>]
+                                      [mt |-> "UB", name |-> "MsgUB", admin |-> FALSE, items |-> Items(x, 2)] >>
+                                \o (IF x.shape \in Three THEN << [mt |-> "UC", name |-> "MsgUC", admin |-> FALSE, items |-> Items(x, 3)] >> ELSE <<>>)]
 
 HInit == /\ t \in { x \in Cands : Usable(x) }
          /\ S = SchemaFor(t) /\ hist = <<"Collision_" \o t.shape>> /\ done = TRUE /\ cur = 0
